@@ -99,6 +99,11 @@ def _work(unit):
         if kind == "explore":
             g = Engine(query_timeout_ms=h.query_timeout_ms, max_decisions=h.max_decisions,
                        code_roots=roots)
+            rc = None
+            if opts.get("cvc5"):
+                from sx.cvc5x import Cvc5Recheck
+                rc = Cvc5Recheck()
+                g.second_solver = rc
             samples = []
             funcs = set()
 
@@ -151,6 +156,7 @@ def _work(unit):
                 out["inconclusive"] = f"solver unknown: {e}"
                 out["remaining"] = []
             out["opts"] = {k: v for k, v in opts.items() if k in ("case_id",)}
+            out["cvc5"] = rc.summary() if rc is not None else None
             out.update(paths=g.paths, infeasible=g.infeasible_paths, queries=g.queries,
                        solver_s=g.solver_s, obligations=g.obligations, discharged=g.discharged,
                        notes=g.notes_total, failures=[f.as_dict() for f in failures],
@@ -280,7 +286,8 @@ def run_check(prop, harness_specs, tier, seed, explanation, level="other", budge
             cases = [c_ for c_ in cases if flt in json.dumps(c_, sort_keys=True)]
         for i, case in enumerate(cases):
             units.append(("explore", m, c, case,
-                          {"deadline": deadline, "profile": i == 0, "samples": 1 if i < 3 else 0}))
+                          {"deadline": deadline, "profile": i == 0, "samples": 1 if i < 3 else 0,
+                           "cvc5": bool(getattr(h, "cvc5_recheck", False)) and tier == "thorough"}))
         for k in range(h.agreement_runs if cases else 0):
             units.append(("agree", m, c, rng.choice(cases), {"seed": rng.randrange(1 << 30)}))
     # biggest cases are unknown a priori: shuffle for balance (seed only permutes the order)
@@ -294,6 +301,7 @@ def run_check(prop, harness_specs, tier, seed, explanation, level="other", budge
                      agree_ok=0, agree_skipped=0, nontrivial_paths=0)
              for _, c, _ in hs}
     errors, inconclusive, violations, known_hits = [], [], [], {}
+    cvc5_tot = {}
     pending_fail = []
     stop = False
     not_exhausted = 0
@@ -354,6 +362,13 @@ def run_check(prop, harness_specs, tier, seed, explanation, level="other", budge
                 st["samples"].extend(r["samples"])
             for k, v in r["notes"].items():
                 st["notes"][k] = st["notes"].get(k, 0) + v
+            if r.get("cvc5"):
+                for k_, v_ in r["cvc5"].items():
+                    if isinstance(v_, int):
+                        cvc5_tot[k_] = cvc5_tot.get(k_, 0) + v_
+                if r["cvc5"]["cvc5_sat_disagreements"]:
+                    errors.append((r["harness"], r["case"], "cvc5 answers sat on an obligation z3 proved: "
+                                   + str(r["cvc5"]["cvc5_sat_disagreements"])))
             if r["inconclusive"]:
                 inconclusive.append((r["harness"], r["case"], r["inconclusive"]))
                 case_ok[cid] = False
@@ -362,7 +377,8 @@ def run_check(prop, harness_specs, tier, seed, explanation, level="other", budge
                 if time.time() < deadline and r["remaining"]:
                     for pf in r["remaining"]:
                         pending.append(("explore", r["module"], r["harness"], r["case"],
-                                        {"deadline": deadline, "prefix": pf, "case_id": cid, "samples": 0}))
+                                        {"deadline": deadline, "prefix": pf, "case_id": cid, "samples": 0,
+                                         "cvc5": r.get("cvc5") is not None}))
                         case_open[cid] += 1
                 elif not r["failures"]:
                     case_ok[cid] = False
@@ -489,6 +505,9 @@ def run_check(prop, harness_specs, tier, seed, explanation, level="other", budge
         "known_findings_reported": [f"{hn}:{tag}" for hn, tag in sorted(known_hits)],
         "not_exhausted_units": not_exhausted,
     }
+    if cvc5_tot:
+        cov["second_solver_cvc5"] = dict(cvc5_tot, note="assertion obligations that z3 proved by a real query, re-discharged "
+                                         "with the cvc5 binary (path condition + negated obligation as SMT-LIB2); first 400 per unit")
     if extra_evidence:
         cov.update(extra_evidence)
     if post_res:
